@@ -540,6 +540,56 @@ Definition mono_spec (fn x1 x2 o1 o2 : Z) : option bool :=
            else Some (if dir then key o1 <=? key o2 + 4 else key o2 <=? key o1 + 4)
   end.
 
+(* ----- local slope: the function is not flat (and not steeper than twice its derivative)
+   between two close arguments x1 < x2.  f'(x1) = N / D with N, D exact dyadics built from the
+   arguments and the first result; the check is
+       (o2 - o1) * D  within  [ (x2 - x1) * N / 2 - slack ,  2 * (x2 - x1) * N + slack ]
+   with slack = 8 units in the last place of the larger result (times D).  Used next to the
+   arguments where the result is an exact power / zero, where a "snapped" result would be flat. *)
+Definition dy_add (a b : Z * Z) : Z * Z :=
+  let em := Z.min (snd a) (snd b) in
+  (Z.shiftl (fst a) (snd a - em) + Z.shiftl (fst b) (snd b - em), em).
+Definition dy_neg (a : Z * Z) : Z * Z := (- fst a, snd a).
+Definition dy_sub (a b : Z * Z) : Z * Z := dy_add a (dy_neg b).
+Definition dy_leb (a b : Z * Z) : bool :=
+  let em := Z.min (snd a) (snd b) in
+  Z.shiftl (fst a) (snd a - em) <=? Z.shiftl (fst b) (snd b - em).
+Definition dy_abs (a : Z * Z) : Z * Z := (Z.abs (fst a), snd a).
+Definition dy_int (n : Z) : Z * Z := (n, 0).
+
+Definition slope_nd (fn : Z) (x1 o1 : Z * Z) : option ((Z * Z) * (Z * Z)) :=
+  let cst c := match dy c with Some d => d | None => dy_one end in
+  if fn =? 9 then Some (dy_one, x1)                                   (* log: 1/x *)
+  else if fn =? 26 then Some (cst LOG10E_bits, x1)                     (* log10 *)
+  else if fn =? 28 then Some (cst LOG2E_bits, x1)                      (* log2 *)
+  else if fn =? 27 then Some (dy_one, dy_add dy_one x1)                (* log1p: 1/(1+x) *)
+  else if fn =? 7 then Some (o1, dy_one)                               (* exp: f *)
+  else if fn =? 25 then Some (dy_add o1 dy_one, dy_one)                (* expm1: f + 1 *)
+  else if fn =? 15 then Some (dy_one, dy_mul (dy_int 2) o1)            (* sqrt: 1/(2f) *)
+  else if fn =? 23 then Some (dy_one, dy_mul (dy_int 3) (dy_mul o1 o1)) (* cbrt: 1/(3f^2) *)
+  else if fn =? 3 then Some (dy_one, dy_add dy_one (dy_mul x1 x1))     (* atan: 1/(1+x^2) *)
+  else None.
+
+Definition slope_spec (fn x1 x2 o1 o2 : Z) : option bool :=
+  match dy x1, dy x2, dy o1, dy o2 with
+  | Some a1, Some a2, Some r1, Some r2 =>
+      let dx := dy_sub a2 a1 in
+      if fst dx <=? 0 then None
+      else if negb (dy_leb (dy_mul dx (1, 20)) (dy_abs a2) || dy_leb dx (1, -30)) then None
+      else
+        match slope_nd fn a1 r1 with
+        | None => None
+        | Some (N, D) =>
+            if (fst D <=? 0) || (fst N <=? 0) then None else
+            let L := dy_mul (dy_sub r2 r1) D in
+            let R := dy_mul dx N in
+            let slack := dy_mul (8, Z.max (snd r1) (snd r2)) D in
+            Some (dy_leb R (dy_add (dy_mul (dy_int 2) L) (dy_mul (dy_int 2) slack))
+                  && dy_leb L (dy_add (dy_mul (dy_int 2) R) slack))
+        end
+  | _, _, _, _ => None
+  end.
+
 (* 15.8.2.14: random() is >= 0 and < 1 (and a run of them is not constant) *)
 Fixpoint all_distinct (l : list Z) : bool :=
   match l with [] => true | x :: l' => negb (existsb (Z.eqb x) l') && all_distinct l' end.
